@@ -1,9 +1,9 @@
 package lab
 
 import (
-	"github.com/BurntSushi/toml"
 	"context"
 	"fmt"
+	"github.com/BurntSushi/toml"
 	"net"
 	"syscall"
 
@@ -22,12 +22,18 @@ func NewCapture(id string) pushers.Channel { return chanCapture{id} }
 
 // CanaryHost is a raw listener built by the verif constructor.
 type CanaryHost struct {
-	C    *canary.Canary
-	Fd   int // harness end of the socketpair: write link-layer frames here
-	ID   string
-	Ifc  net.Interface
+	C   *canary.Canary
+	Fd  int // harness end of the socketpair: write link-layer frames here
+	ID  string
+	Ifc net.Interface
+	// Me2: the address of a second interface the listener owns (CanarySecondInterface), nil if the host has none
+	Me2  net.IP
 	stop context.CancelFunc
 }
+
+// CanarySecondInterface makes StartCanary give the listener the first other interface with an IPv4 address as well
+// (a sensor with several addresses).
+var CanarySecondInterface bool
 
 var (
 	PeerMAC = net.HardwareAddr{0x02, 0x00, 0x5e, 0x10, 0x00, 0x01}
@@ -103,6 +109,22 @@ func StartCanary(id, tables string, peers []net.IP, loop bool) (*CanaryHost, err
 		}
 	}
 	h := &CanaryHost{C: c, Fd: fd, ID: id, Ifc: *ifc}
+	if CanarySecondInterface {
+		ifs, _ := net.Interfaces()
+		for _, other := range ifs {
+			if other.Name == ifc.Name || h.Me2 != nil {
+				continue
+			}
+			addrs, _ := other.Addrs()
+			for _, a := range addrs {
+				if n, ok := a.(*net.IPNet); ok && n.IP.To4() != nil && !n.IP.IsLoopback() {
+					c.VerifAddInterface(other)
+					h.Me2 = n.IP.To4()
+					break
+				}
+			}
+		}
+	}
 	if loop {
 		// never cancelled: cancelling closes the epoll descriptor and the
 		// receive loop then calls log.Fatalf (process exit)
